@@ -24,7 +24,12 @@ WEAK = {  # spec mutation -> properties one of which TLC must report
     "crossVersion": {"Inv_C15_NoSelfDrift", "Act_C15_NoSelfDrift", "Act_C15_Decision"},
     "intersects": {"Act_C15_Decision"},
     "restampAlways": {"Act_C15_TemplateChangeReported"}, "restampDrifted": {"Act_C15_TemplateChangeReported"},
+    "versionConst": {"Act_C15_Decision", "Inv_C15_NoSelfDrift", "Act_C15_NoSelfDrift"},
+    "rawKeyFilter": {"Act_C15_Decision", "Inv_C15_NoSelfDrift", "Act_C15_NoSelfDrift"},
 }
+A_ARCH, A_OS, A_TYPE = "beta.kubernetes.io/arch", "beta.kubernetes.io/os", "beta.kubernetes.io/instance-type"
+A_ZONE, A_REGION = "failure-domain.beta.kubernetes.io/zone", "failure-domain.beta.kubernetes.io/region"
+REGION = "topology.kubernetes.io/region"
 
 
 def R(key, op, vals=(), mn=0):
@@ -43,6 +48,11 @@ def model_catalog(types=("small", "large"), zones=("zone-a", "zone-b"), cts=("sp
 # concrete realisations of the model's abstract template value n in 0..2, one family per behaviour
 FAMILIES = {
     "taints": [("setTaints", "", "t1"), ("setTaints", "", "t1,t2"), ("setTaints", "", "t3")],
+    # taints sharing a key (valid: only duplicate key+effect pairs are rejected): remove / change one member of the pair
+    "pairTaints": [("setTaints", "", "d:NoSchedule,d:NoExecute,t1"), ("setTaints", "", "d:NoSchedule,t1"),
+                   ("setTaints", "", "d:NoSchedule,d=y:NoExecute,t1")],
+    "pairStartupTaints": [("setStartupTaints", "", "s:NoSchedule,s:NoExecute"), ("setStartupTaints", "", "s:NoSchedule"),
+                          ("setStartupTaints", "", "s:NoSchedule,s:PreferNoSchedule")],
     "startupTaints": [("setStartupTaints", "", "-"), ("setStartupTaints", "", "s1"), ("setStartupTaints", "", "s1,s2")],
     "expireAfter": [("expireAfter", "", "Never"), ("expireAfter", "", "10m"), ("expireAfter", "", "0s")],
     "tgp": [("tgp", "", "-"), ("tgp", "", "30s"), ("tgp", "", "0s")],
@@ -61,6 +71,10 @@ def from_model(h, atoms, rng):
     fam = rng.choice(sorted(FAMILIES))
     scn = {"reqs": [], "tlabels": {}, "taints": ["t1"], "static": rng.random() < 0.25, "types": model_catalog()}
     steps = []
+    if fam in ("pairTaints", "pairStartupTaints"):     # the template value n = 0 of these families
+        scn["taints"] = FAMILIES[fam][0][2].split(",") if fam == "pairTaints" else ["t1"]
+        if fam == "pairStartupTaints":
+            steps.append(tmpl_edit(fam, 0))
     for e in h:
         a = e["a"]
         if a == "Scn":
@@ -72,13 +86,16 @@ def from_model(h, atoms, rng):
             steps.append({"a": "EditPool", "what": "tlabel", "key": TEAM, "val": e["v"]})
         elif a == "Reorder":
             steps += [{"a": "EditPool", "what": "taintReorder"}, {"a": "EditPool", "what": "reorderReqs"}]
+            if fam == "pairStartupTaints":
+                steps.append({"a": "EditPool", "what": "startupTaintReorder"})
         elif a == "EditBehav":
             steps.append({"a": "EditPool", "what": "behav", "n": rng.randrange(4)})
         elif a == "AddReq":
             for r in atoms[e["atom"] - 1]["reqs"]:
                 steps.append({"a": "EditPool", "what": "addReq", "req": dict(r, min=0, cls="")})
         elif a == "DelReq":
-            steps.append({"a": "EditPool", "what": "delReqKey", "key": atoms[e["atom"] - 1]["key"]})
+            for k in sorted({r["key"] for r in atoms[e["atom"] - 1]["reqs"]}):      # raw spelling (may be an alias key)
+                steps.append({"a": "EditPool", "what": "delReqKey", "key": k})
         elif a == "TamperPool":
             steps.append({"a": "EditPool", "what": "hashAnn", "val": "tampered"})
         elif a in ("HashRec", "AgeVersion", "Restart"):
@@ -114,6 +131,10 @@ WELLKNOWN = [
     [R(TYPE, "In", ["small", "medium"], 2)], [R(TYPE, "NotIn", ["small"])], [R(TYPE, "Exists", [], 2)],
     [R(ARCH, "In", ["amd64"])], [R(ARCH, "NotIn", ["arm64"])], [R(OS, "Exists")],
     [R(ZONE, "In", ["zone-a", "zone-b"]), R(ZONE, "NotIn", ["zone-b"])],
+    # deprecated alias spellings (accepted by validation, normalised by the scheduler) and a key the catalog does not define
+    [R(A_ARCH, "In", ["amd64"])], [R(A_ARCH, "NotIn", ["arm64"])], [R(A_OS, "Exists")], [R(A_OS, "In", ["linux"])],
+    [R(A_TYPE, "In", ["small", "medium"])], [R(A_TYPE, "Exists")], [R(A_ZONE, "In", ["zone-a"])], [R(A_ZONE, "NotIn", ["zone-a"])],
+    [R(A_ZONE, "Exists")], [R(A_REGION, "In", ["r1"])], [R(REGION, "In", ["r1"])], [R(A_ZONE, "In", ["zone-a", "zone-b"]), R(ZONE, "NotIn", ["zone-b"])],
 ]
 CUSTOM = [
     [R(TEAM, "In", ["a"])], [R(TEAM, "In", ["a", "b"])], [R(TEAM, "In", ["a", "b"], 2)], [R(TEAM, "NotIn", ["a"])], [R(TEAM, "Exists")],
@@ -139,9 +160,17 @@ PHASES = {
                      {"a": "OfferingUnavailable", "t": "large", "zone": "zone-b", "ct": "on-demand"},
                      {"a": "Tick", "d": 3700}, {"a": "DriftAll"}, {"a": "Restart"}, {"a": "DriftAll"}, {"a": "RemoveType", "t": "medium"},
                      {"a": "DriftAll"}, {"a": "Tick", "d": 1900}, {"a": "DriftAll"}],
+    # taints sharing a key: a permutation keeps the claims undrifted, removing / changing ONE member of the pair drifts them
+    "pair-taints": [{"a": "EditPool", "what": "taintReorder"}, {"a": "HashRec"}, {"a": "DriftAll"},
+                    {"a": "EditPool", "what": "setTaints", "val": "t1,d:NoSchedule"}, {"a": "HashRec"}, {"a": "DriftAll"}],
+    "pair-taints-change": [{"a": "EditPool", "what": "setTaints", "val": "d:NoExecute,t1,d:NoSchedule"}, {"a": "HashRec"}, {"a": "DriftAll"},
+                           {"a": "EditPool", "what": "setTaints", "val": "d:PreferNoSchedule,t1,d:NoSchedule"}, {"a": "HashRec"}, {"a": "DriftAll"}],
     "stale-annotation": [{"a": "EditPool", "what": "setTaints", "val": "t1,t9"}, {"a": "Create", "c": "late"}, {"a": "Launch", "c": "late", "opt": "#0"},
                          {"a": "DriftRec", "c": "late"}, {"a": "HashRec"}, {"a": "DriftRec", "c": "late"}],
 }
+
+
+PAIR_TAINTS = ["d:NoSchedule", "d:NoExecute", "t1"]
 
 
 def sweep_behaviour(reqs, tag, phase, static=False, tlabels=None, sel=None, register=False):
@@ -149,7 +178,8 @@ def sweep_behaviour(reqs, tag, phase, static=False, tlabels=None, sel=None, regi
     if sel:
         steps[1]["sel"] = sel
     steps += PHASES[phase]
-    return {"scn": {"reqs": reqs, "tlabels": tlabels or {}, "taints": ["t1", "t2"], "static": static}, "steps": steps,
+    return {"scn": {"reqs": reqs, "tlabels": tlabels or {}, "taints": PAIR_TAINTS if phase.startswith("pair-taints") else ["t1", "t2"],
+                    "static": static}, "steps": steps,
             "tag": "sweep:%s:%s" % (phase, tag)}
 
 
@@ -206,16 +236,40 @@ def systematic(tier, rng):
                        {"a": "Tick", "d": 3700}, {"a": "DriftAll"}, {"a": "RemoveOffering", "t": "small", "zone": "zone-a", "ct": "on-demand"},
                        {"a": "Restart"}, {"a": "DriftAll"}]
         behs.append(b)
+    # instance types that can boot several operating systems: the provider resolves the OS from the NodeClaim's requirement
+    multi = [dict(t, multiOS=True) for t in model_catalog(types=("small", "medium"))]
+    for i, reqs in enumerate([[R(OS, "In", ["linux"])], [R(A_OS, "In", ["linux"])], [R(OS, "NotIn", ["windows"])]]):
+        b = sweep_behaviour(reqs, "multi-os-%d" % i, "invariant", static=(i == 1))
+        b["scn"]["types"] = multi
+        behs.append(b)
+    # upgrade window: every (pool annotation version, claim annotation version) in {older, current}^2 x {hash equal, different},
+    # judged by drift reconciles that run BEFORE the hash controller re-stamps
+    for static in (False, True):
+        mk = lambda c, k: [{"a": "Create", "c": c}, {"a": "Launch", "c": c, "opt": "#%d" % k}]
+        steps = [{"a": "HashRec"}] + mk("cA", 0) + mk("cB", 1) + [{"a": "DriftAll"},
+                 {"a": "EditPool", "what": "setTaints", "val": "t1,t8"}, {"a": "HashRec"}] + mk("cC", 2) + mk("cD", 3) + [
+                 {"a": "DriftAll"},                                     # (cur,cur): cA,cB different, cC,cD equal
+                 {"a": "EditClaim", "c": "cB", "what": "oldStamp"}, {"a": "EditClaim", "c": "cD", "what": "oldStamp"},
+                 {"a": "DriftAll"},                                     # (cur,old): never compared
+                 {"a": "AgeVersion"}, {"a": "DriftAll"},                # (old,old): cA,cB different -> reported, cC,cD equal
+                 ] + mk("cE", 4) + mk("cF", 5) + [
+                 {"a": "EditClaim", "c": "cF", "what": "copyPoolHash"},
+                 {"a": "DriftAll"},                                     # (old,cur): new claims stamped by the new release, pool still stale
+                 {"a": "HashRec"}, {"a": "DriftAll"}, {"a": "Restart"}, {"a": "DriftAll"}]
+        behs.append({"scn": {"reqs": [], "tlabels": {}, "taints": ["t1"], "static": static}, "steps": steps, "tag": "upgrade-window:%s" % static})
     # requirement drift: the pool's requirements move away from launched claims (and back)
     for i, (add, key) in enumerate([([R(TEAM, "In", ["a"])], TEAM), ([R(TEAM, "Exists")], TEAM), ([R(GEN, "Gt", ["2"])], GEN),
                                     ([R(ZONE, "In", ["zone-b"])], ZONE), ([R(CT, "NotIn", ["spot"])], CT), ([R(TYPE, "In", ["large"])], TYPE),
                                     ([R(TEAM, "NotIn", ["a"])], TEAM), ([R(TEAM, "DoesNotExist")], TEAM),
                                     ([R(GEN, "Gt", ["2"]), R(GEN, "NotIn", ["5"])], GEN), ([R(GEN, "Lt", ["4"]), R(GEN, "NotIn", ["1"])], GEN),
-                                    ([R(TEAM, "Exists"), R(TEAM, "NotIn", ["a"])], TEAM), ([R(GEN, "Gte", ["1"])], GEN)]):
+                                    ([R(TEAM, "Exists"), R(TEAM, "NotIn", ["a"])], TEAM), ([R(GEN, "Gte", ["1"])], GEN),
+                                    ([R(A_ARCH, "In", ["amd64"])], A_ARCH), ([R(A_ZONE, "In", ["zone-b"])], A_ZONE),
+                                    ([R(A_TYPE, "NotIn", ["large"])], A_TYPE), ([R(A_OS, "Exists")], A_OS),
+                                    ([R(A_ARCH, "In", ["arm64"])], A_ARCH)]):
         steps = [{"a": "HashRec"}, {"a": "Sweep", "c": "s", "on": i % 2 == 0}]
         steps += [{"a": "EditPool", "what": "addReq", "req": r} for r in add]
         steps += [{"a": "DriftAll"}, {"a": "HashRec"}, {"a": "DriftAll"}, {"a": "EditPool", "what": "delReqKey", "key": key}, {"a": "DriftAll"}]
-        behs.append({"scn": {"reqs": [R(ZONE, "In", ["zone-a", "zone-b"])] if key != ZONE else [], "tlabels": {}, "taints": ["t1"],
+        behs.append({"scn": {"reqs": [R(ZONE, "In", ["zone-a", "zone-b"])] if key not in (ZONE, A_ZONE) else [], "tlabels": {}, "taints": ["t1"],
                              "static": i % 4 == 3}, "steps": steps, "tag": "reqdrift:" + atom_tag(add)})
     # label drift on the claim side (labels stop satisfying): removal, change, demotion of the capacity type
     for i, (key, val) in enumerate([(TEAM, "-"), (TEAM, "z"), (ZONE, "-"), (ZONE, "zone-c"), (CT, "on-demand"), (GEN, "9"), (GEN, "x")]):
